@@ -101,9 +101,12 @@ fn text(r: &mut Rng, out: &mut Vec<u8>, n: &mut usize, entities: bool) {
     *n += 1;
     if entities && r.chance(1, 6) {
         // character data that consists of (or contains) references the reader does not resolve: still character data
-        match r.below(3) {
+        match r.below(5) {
             0 => out.extend_from_slice(b"&nbsp;"),
             1 => out.extend_from_slice(format!("AT&T t{:03}", n).as_bytes()),
+            // numeric character references, a zero-width joiner and a right-to-left mark, Windows line ends
+            3 => out.extend_from_slice(format!("t{:03} &#233;&#x20AC;&#x1F600; \u{200d}\u{200f}", n).as_bytes()),
+            4 => out.extend_from_slice(format!("t{:03}\r\nsecond line\r\n", n).as_bytes()),
             _ => out.extend_from_slice(b"&co;&unknown;"),
         }
         return;
